@@ -11,7 +11,7 @@ use vl_model::classify::{classify, Class};
 use vl_model::ctx::{hash64, load_replay, ncpu, parallel, Acc, Args, Ctx, Tier};
 use vl_model::pt::{self, Fail};
 use vl_model::sock::{Peer, Scratch, Server, Wait};
-use vl_model::svc::t_service;
+use vl_tsvc::t_service;
 use vl_model::wire::*;
 
 use crate::c02::{hex, unhex};
